@@ -539,3 +539,30 @@ impl EventLog {
         self.ev.lock().unwrap_or_else(|e| e.into_inner()).len()
     }
 }
+
+// ---------------------------------------------------------------- witness shrinking
+
+/// Greedy delta-debugging over an operation sequence: drop one operation at a time while `fails`
+/// still holds, to a fixpoint or until the work budget is spent. Used to report short witnesses for
+/// violations found in long random histories.
+pub fn shrink_seq<T: Clone>(mut ops: Vec<T>, mut fails: impl FnMut(&[T]) -> bool) -> Vec<T> {
+    let mut budget = 3000u32;
+    loop {
+        let mut changed = false;
+        let mut i = 0;
+        while i < ops.len() && budget > 0 {
+            let mut t = ops.clone();
+            t.remove(i);
+            budget -= 1;
+            if fails(&t) {
+                ops = t;
+                changed = true;
+            } else {
+                i += 1;
+            }
+        }
+        if !changed || budget == 0 {
+            return ops;
+        }
+    }
+}
